@@ -89,6 +89,21 @@ func randBagModel(r *rand.Rand) *rosgen.BagModel {
 		}
 		b.Msgs = append(b.Msgs, m)
 	}
+	// one model in ten: consecutive large messages of slowly growing size (a reader that keeps and reuses
+	// its buffers must size them by length, not capacity), and a connection header beyond 1 KiB
+	if r.Intn(10) == 0 && len(b.Conns) > 0 {
+		size := 1<<20 + r.Intn(1<<20)
+		for k := 0; k < 3; k++ {
+			d := make([]byte, size)
+			r.Read(d)
+			b.Msgs = append(b.Msgs, rosgen.BagMsg{Conn: b.Conns[0].ID, Secs: base + 100, Nsecs: uint32(k), Data: d})
+			size += 1 + r.Intn(size/5)
+		}
+		b.Msgs = append(b.Msgs, rosgen.BagMsg{Conn: b.Conns[0].ID, Secs: base + 101, Data: []byte("tail")})
+		last := &b.Conns[len(b.Conns)-1]
+		last.Def = strings.Repeat("# padding line of a long definition\n", 40+r.Intn(10)) + last.Def
+		last.MD5 = fmt.Sprintf("%032x", r.Uint64()) // a different definition is a different (type, md5) pair
+	}
 	if !b.Chunked {
 		b.IndexDataRecords = false
 	}
